@@ -380,7 +380,14 @@ class MiscMonitors:
             exp_start = tk.common_prefix(ta, tb)
             k = tk.common_suffix(ta, tb)
             exp_end = {"a": len(ta) - k, "b": len(tb) - k}
-        shared = any(x is y for x, y in zip(fa.content, fb.content))
+        def shares(x, y, depth=0):
+            if x is y:
+                return True
+            if depth > 6:
+                return False
+            return any(shares(p, q, depth + 1) for p, q in zip(x.content.content, y.content.content))
+
+        shared = a is not b and any(shares(x, y) for x, y in zip(fa.content, fb.content))
         self.probes["C20.site:" + site] += 1
         if shared:
             self.probes["C20.pairs_sharing_children"] += 1
